@@ -133,7 +133,7 @@ def mac_member(rng, path, level=1):
     return g
 
 
-def random_archive(rng, nmax=6, with_compressed=True, allow_bad=True, with_mac=True):
+def random_archive(rng, nmax=6, with_compressed=True, allow_bad=True, with_mac=True, bare_dirs=False):
     """a directory-structured archive: dirs followed by their contents, files, links"""
     ms = []
     dirs = [b""]
@@ -169,6 +169,9 @@ def random_archive(rng, nmax=6, with_compressed=True, allow_bad=True, with_mac=T
         if q < 0.22:
             p = fresh(d)
             ms.append(G("dir", p, level=rng.choice([1, 2, 2, 3]), perms=rng.choice(["default", 0o40700, 0o40555, None])))
+            if bare_dirs and rng.random() < 0.35:
+                # a directory entry that records nothing at all (no permissions, no owner, time stamp 0): it is re-presented like any other
+                ms[-1].perms, ms[-1].time = None, 0
             dirs.append(p + b"/")
             alldirs.append(p)
             if rng.random() < 0.5:
